@@ -80,21 +80,26 @@ class BaseComponent(Manager):
     def __new__(cls, *args, **kwargs):
         self = super().__new__(cls)
 
-        handlers = {k: v for k, v in list(cls.__dict__.items()) if getattr(v, 'handler', False)}
+        mro = cls.__mro__
 
-        def overridden(x):
-            return x in handlers and handlers[x].override
+        def overridden(x, depth):
+            # (by a class between cls and the declaring base, cls included)
+            return any(
+                getattr(c.__dict__.get(x), 'handler', False) and c.__dict__[x].override
+                for c in mro[:depth]
+            )
 
-        for base in cls.__bases__:
-            if issubclass(cls, base):
-                for k, v in list(base.__dict__.items()):
-                    p1 = isinstance(v, Callable)
-                    p2 = getattr(v, 'handler', False)
-                    p3 = overridden(k)
-                    if p1 and p2 and not p3:
-                        name = f'{base.__name__}_{k}'
-                        method = MethodType(v, self)
-                        setattr(self, name, method)
+        # all base classes, not only the direct ones: a handler shadowed by a
+        # subclass stays a handler however deep the hierarchy is
+        for depth, base in enumerate(mro[1:], 1):
+            for k, v in list(base.__dict__.items()):
+                p1 = isinstance(v, Callable)
+                p2 = getattr(v, 'handler', False)
+                p3 = overridden(k, depth)
+                if p1 and p2 and not p3:
+                    name = f'{base.__name__}_{k}'
+                    method = MethodType(v, self)
+                    setattr(self, name, method)
 
         return self
 
